@@ -429,8 +429,28 @@ impl Query {
     }
 
     /// `|p0: &A, #[cfg(x)] p1: &mut B|`
+    /// The binding names are irrelevant to matching; a deterministic quarter of the queries each
+    /// uses `_` for every parameter resp. one and the same name for every parameter (the
+    /// `#[cfg(p)] v: &A, #[cfg(not(p))] v: &B` idiom), so that generators which key anything by
+    /// the parameter name, or treat placeholders specially, are exercised.
     pub fn params_text(&self) -> String {
-        let ps: Vec<String> = self.params.iter().enumerate().map(|(i, p)| format!("{}p{}: {}", attrs(&p.cfgs), i, p.ty_text())).collect();
+        let mut h: u32 = 2166136261;
+        for p in &self.params {
+            for b in p.ty_text().bytes() {
+                h = (h ^ b as u32).wrapping_mul(16777619);
+            }
+        }
+        let style = (h >> 7) % 4;
+        let ps: Vec<String> = self
+            .params
+            .iter()
+            .enumerate()
+            .map(|(i, p)| match style {
+                2 => format!("{}_: {}", attrs(&p.cfgs), p.ty_text()),
+                3 => format!("{}v: {}", attrs(&p.cfgs), p.ty_text()),
+                _ => format!("{}p{}: {}", attrs(&p.cfgs), i, p.ty_text()),
+            })
+            .collect();
         format!("|{}|", ps.join(", "))
     }
 
